@@ -23,7 +23,7 @@ SCOPES = {
     # (a stale Jacobian multiplies a zero residual: harmless too; INTEG-FIX covers the integrators)
     "C03": [(r"modelphy\..*", ALLM, r"(bc_.*|namedBC)$")],
     # C04: a stale flux *name* still selects a consistent flux (same order); reconstruction / operator state matters
-    "C04": [("xnum", ALLM, ALLM), ("modeldisc", ALLM, ALLM)],
+    "C04": [("xnum", ALLM, ALLM), ("modeldisc", ALLM, ALLM), ("field", ALLM, ALLM), ("integration", ALLM, r"(_solve|solve|restart|reset|_check_end|add_res|step|calcrhs)$")],
     "C05": [("integration", ALLM, r"(step|add_res|calcrhs)$")],
     "C06": [("integration", ALLM, INTEG_STEP)],
     "C07": [("integration", ALLM, r"(_solve|solve|restart|reset|_check_end|add_res|step|calcrhs)$"), ("field", ALLM, ALLM)],
